@@ -640,7 +640,7 @@ def gen_C11(r):
     # results produced in another checkout of the same project at the very same time (version ids are
     # only unique per index), merged in through an archive
     run_idx = [j for j, o in enumerate(ops) if o["op"] == "run"]
-    if exps and r.random() < 0.3:
+    if exps and r.random() < 0.4:
         ops.append({"op": "foreign", "clock_of_step": r.choice(run_idx), "targets": r.sample(exps, r.randint(1, min(2, len(exps)))),
                     "out": "F0"})
         ops.append({"op": "restore", "archive": "F0", "cwd": ""})
@@ -692,7 +692,7 @@ def _plants(r):
         {"kind": "dir", "path": "bad name.task.5", "files": ["f"]},
     ]
     for it in pool:
-        if r.random() < 0.3:
+        if r.random() < (0.5 if it.get("inside") or "/inner" in it["path"] else 0.3):
             items.append(it)
     if r.random() < 0.25:
         items.append({"kind": "dir", "outside": True, "path": "outside/data/y.task.77", "files": ["precious.txt"]})
@@ -968,15 +968,18 @@ _gen_C09_base, _gen_C04_base, _gen_C01_base = gen_C09, gen_C04, gen_C01
 
 def gen_C09(r):  # noqa: F811
     if r.random() < 0.3:
-        scn = _fanout_scenario(r, stop_early_p=0.15, fail_p=0.2)
+        scn = _fanout_scenario(r, stop_early_p=0.15, fail_p=r.choice([0.1, 0.3]))
         scn["knobs"]["mon"] = True
         scn["knobs"]["p_async"] = r.choice([1e-3, 1e-2, 5e-2])
+        if r.random() < 0.5:
+            # fewer slots than tasks: slots are recycled while others are still running
+            scn["history"][0]["flags"]["jobs"] = r.choice([2, 2, 3])
         return scn
     return _gen_C09_base(r)
 
 
 def gen_C04(r):  # noqa: F811
-    if r.random() < 0.3:
+    if r.random() < 0.4:
         scn = _fanout_scenario(r, stop_early_p=0.1, fail_p=0.3)
         op = scn["history"][0]
         op["flags"]["jobs"] = r.choice([2, 3, 3, 4, 5, 6, 8, "auto"])
